@@ -1,24 +1,11 @@
 """C43 - cluster routes take the path their pool's encapsulation requires."""
 import vlib
 
-KEY = "local-ipv4-subnet-unset-reflag"
-
-
-def classify(line):
-    # The known class (known-findings.txt): the local node is known before and after an update and its IPv4
-    # subnet appears or disappears; the re-flagging walk then compares against the zero CIDR 0.0.0.0/0.
-    # Any oracle failure on a history without that shape is new.
-    if "local-v4-presence-flip" in line.get("tags", []):
-        return KEY
-    return None
-
-
 CFG = dict(
     imports=["From Verif.Common Require Import Prefix.", "From Verif.C43 Require Import Model Spec.", "Open Scope N_scope."],
     checker="check_case",
     n=dict(quick=120, thorough=6000),
     shard=60,
-    classify=classify,
     rule="histories (4-30 updates) of IP pools (IPIP/VXLAN x Always/CrossSubnet, no-encap, load-balancer-only, deleted), nodes "
          "(absent / known without IPv4 / address+subnet drawn from flat, split /25, single and nested subnet layouts, shared "
          "addresses), IPAM blocks (/26 /28 /30 /32, inside and outside pools; affinity none/local/remote; 0-3 allocations "
